@@ -452,7 +452,8 @@ where
 
         if res_base2k == s_base2k {
             let res_big: VecZnxBig<&mut [u8], BE>;
-            let (res_dft, scratch_1) = scratch.take_vec_znx_dft(self, (s.rank() + 1).into(), s.size()); // Todo optimise
+            let (mut res_dft, scratch_1) = scratch.take_vec_znx_dft(self, (s.rank() + 1).into(), s.size()); // Todo optimise
+            res_dft.zero(); // for dsize > 2 the product accumulates onto limbs its first digit does not write
             {
                 // Temporary value storing a - b
                 let tmp_c_infos: GLWELayout = GLWELayout {
@@ -499,7 +500,8 @@ where
             self.glwe_normalize(&mut tmp_b, res_b, scratch_2);
 
             let res_big: VecZnxBig<&mut [u8], BE>;
-            let (res_dft, scratch_3) = scratch_2.take_vec_znx_dft(self, (s.rank() + 1).into(), s.size()); // Todo optimise
+            let (mut res_dft, scratch_3) = scratch_2.take_vec_znx_dft(self, (s.rank() + 1).into(), s.size()); // Todo optimise
+            res_dft.zero(); // for dsize > 2 the product accumulates onto limbs its first digit does not write
             {
                 // Temporary value storing a - b
                 let tmp_c_infos: GLWELayout = GLWELayout {
